@@ -178,10 +178,10 @@ PROPS["C02"] = dict(
     rule=SEQ_RULE, trivial_tags=SEQ_TRIVIAL + ["many_polls"],
 )
 PROPS["C05"] = dict(
-    modules=["DdoModel.Props.C05", "DdoModel.Props.C01b", "DdoModel.Props.C03b"],
+    modules=["DdoModel.Props.C05", "DdoModel.Props.C01b", "DdoModel.Props.C03b", "DdoModel.Props.C03c"],
     theorems=["Ddo.C05.bounds_at_pop", "Ddo.C05.update_le_ub", "Ddo.C05.cutoff_bounds_restricted", "Ddo.C05.cutoff_bounds_relaxed", "Ddo.C05.aborted_not_exact",
               "Ddo.C01b.process_cutoff_dedup_irrel", "Ddo.C01b.cutoff_bounds_restricted_any", "Ddo.C01b.cutoff_bounds_relaxed_any",
-              "Ddo.C03b.sys_cutoff_bounds", "Ddo.C03b.sys_cutoff_bounds_final", "Ddo.C03b.sys_final", "Ddo.C03b.d4b_witness", "Ddo.C03b.d4b_fixed"],
+              "Ddo.C03b.sys_cutoff_bounds", "Ddo.C03b.sys_cutoff_bounds_final", "Ddo.C03b.sys_final", "Ddo.C03b.d4b_witness", "Ddo.C03b.d4b_fixed", "Ddo.C03c.par_cutoff_bounds", "Ddo.C03c.par_final"],
     stated_not_proved=["parallel part (par_cutoff_bounds): see C03 / C04 - not yet modelled"],
     level_text="Sequential part: for every instance and every poll index at which the cutoff fires (during the restricted or during the relaxed compilation of the node in hand) the aborted state satisfies best_lb <= optimum <= best_ub, its solution is feasible with value best_lb, and exactness is not claimed; proved from the coverage invariant, the max-pop order of the fringe and the parent-capped bounds. Tied to the code by tape validation of interrupted runs and by the seqcut engine (every k = 1..K+1).",
     level_note="Partial: the parallel solver's abort path is not covered yet (planned with the parallel model, where the design-time probes found a defect, D4).",
@@ -190,8 +190,8 @@ PROPS["C05"] = dict(
     rule=SEQ_RULE, trivial_tags=SEQ_TRIVIAL + ["many_polls"],
 )
 PROPS["C14"] = dict(
-    modules=["DdoModel.Props.C02", "DdoModel.Props.C03b"],
-    theorems=["Ddo.C02.set_primal_strict", "Ddo.C02.from_primal_optimal", "Ddo.C01.process_inv", "Ddo.C01.complete_optimal",
+    modules=["DdoModel.Props.C02", "DdoModel.Props.C03b", "DdoModel.Props.C03c"],
+    theorems=["Ddo.C03c.parallel_solver_primal", "Ddo.C02.set_primal_strict", "Ddo.C02.from_primal_optimal", "Ddo.C01.process_inv", "Ddo.C01.complete_optimal",
               "Ddo.C03b.sys_inv_init_primal", "Ddo.C03b.sys_primal", "Ddo.C03b.sys_primal_any"],
     stated_not_proved=[],
     level_text="set_primal replaces the incumbent exactly when the new value is strictly greater (proved); a run started from any primal that belongs to a feasible solution satisfies the coverage invariant initially, hence (process_inv, complete_optimal) ends exact with max(primal, optimum). Tape validation covers runs with a primal taken from a random feasible solution (often equal to the optimum).",
@@ -306,12 +306,14 @@ PAR_ENGINES = [dict(name="par", label="par", args=[]), dict(name="par", label="p
                dict(name="par", label="par_cache", args=["--focus-cache"])]
 
 PROPS["C04"] = dict(
-    modules=["DdoModel.Props.C04", "DdoModel.Props.C03b"],
+    modules=["DdoModel.Props.C04", "DdoModel.Props.C03b", "DdoModel.Props.C03c"],
     theorems=["Ddo.C04.par_ongoing_inv", "Ddo.C04.par_reachable_inv", "Ddo.C04.par_no_crash", "Ddo.C04.par_no_stuck", "Ddo.C04.par_complete_only_when_closed",
               "Ddo.C04.initial_inv", "Ddo.C04.maximize_never_stuck", "Ddo.ParSync.stepAt_sound", "Ddo.ParSync.stepOrStutter_sound", "Ddo.ParSync.invB_iff",
               "Ddo.ParSync.d3_step1", "Ddo.ParSync.d3_step2", "Ddo.ParSync.s2_stuck",
-              "Ddo.C03b.sys_terminates", "Ddo.C03b.sys_no_infinite_run", "Ddo.C03b.sys_progOk"],
-    stated_not_proved=["that the concrete model never takes its panic steps (gwCrash unreachable, notifyFinished defined) as a theorem on ParSys (it is one on the synchronisation skeleton: par_no_crash)"],
+              "Ddo.C03b.sys_terminates", "Ddo.C03b.sys_no_infinite_run", "Ddo.C03b.sys_progOk",
+              "Ddo.C03c.par_terminates", "Ddo.C03c.par_no_infinite_run", "Ddo.C03c.par_no_gwCrash", "Ddo.C03c.par_notify_defined", "Ddo.C03c.par_no_panic", "Ddo.C03c.par_progress",
+              "Ddo.C03c.par_layinv", "Ddo.C03c.parallel_solver_total"],
+    stated_not_proved=["thread counts changed after construction are covered on the synchronisation skeleton (ubSlots vs number of workers: par_no_crash, D3 witness) and by the scheduled runs (--resize); the concrete closed theorem starts from U workers with U cells"],
     level_text="For the synchronisation skeleton of the parallel solver (any number of workers, every interleaving, cutoff firing at any moment) it is proved by induction over the transition relation that: the ongoing counter equals the number of workers holding a node and a parked worker implies work in progress (inductive invariant); no worker crashes when upper_bounds has a cell per worker; in every state reachable from the initial state of maximize() in which some worker has not left its loop some step is enabled (no deadlock, no lost wake-up); Complete is answered only when nothing is open or in progress. The skeleton is tied to the code in two checked hops: the executable model of the parallel solver is validated trace by trace against the real solver under a controlled scheduler, and every section of the executable model is checked (by a recogniser proved sound) to be invisible to the skeleton or exactly one of its steps, with the invariant evaluated in every state. The D3 deadlock (with_nb_threads above the construction-time count) was found by the scheduler, is kept as a proved stuck-state witness, and is repaired (fix commit).",
     level_note="Partial: termination proper (well-foundedness) is not proved; it is bounded by the scheduler's step bound in every explored run. Mutex / condvar semantics are modelled (atomic sections, atomic release-and-park, notify_all wakes all), not verified; the model cannot exhibit weak-memory effects.",
     engines=PAR_ENGINES, trusted_base=PAR_TB,
@@ -319,14 +321,17 @@ PROPS["C04"] = dict(
     rule=PAR_RULE, trivial_tags=PAR_TRIVIAL,
 )
 PROPS["C03"] = dict(
-    modules=["DdoModel.Props.C03", "DdoModel.Props.C03b"],
+    modules=["DdoModel.Props.C03", "DdoModel.Props.C03b", "DdoModel.Props.C03c"],
     theorems=["Ddo.C03.par_cover", "Ddo.C03.run_cover", "Ddo.C03.par_correct", "Ddo.ParCover.step_inv", "Ddo.ParCover.final",
               "Ddo.C03b.sys_inv_init", "Ddo.C03b.sys_inv_init_primal", "Ddo.C03b.sys_inv_step", "Ddo.C03b.sys_inv", "Ddo.C03b.sys_inv_seq", "Ddo.C03b.sys_complete_optimal",
-              "Ddo.C03b.sys_complete_value", "Ddo.C03b.sys_final", "Ddo.C03b.sys_terminates", "Ddo.C03b.sys_progOk", "Ddo.C03b.sys_no_infinite_run"],
+              "Ddo.C03b.sys_complete_value", "Ddo.C03b.sys_final", "Ddo.C03b.sys_terminates", "Ddo.C03b.sys_progOk", "Ddo.C03b.sys_no_infinite_run",
+              "Ddo.C03c.parallel_solver_correct", "Ddo.C03c.parallel_solver_total", "Ddo.C03c.parallel_solver_primal", "Ddo.C03c.par_pcinv", "Ddo.C03c.par_contract_R", "Ddo.C03c.par_contract_X",
+              "Ddo.C03c.par_complete_optimal", "Ddo.C03c.par_infeasible", "Ddo.C03c.par_terminates", "Ddo.C03c.par_no_panic", "Ddo.C03c.par_progress", "Ddo.C03c.Trap2.correct",
+              "Ddo.C03c.Trap2.zero_threads"],
     stated_not_proved=["a machine-checked link between the trace validator of the driver (Engines/Par.lean, which replays the real solver's sections through the ParSolver.lean functions) and the step relation ParSys.StepG (which composes the same functions): by construction, not a theorem",
-                       "runs with cache / dominance (C09 / C10)", "the closed theorem with the diagram models plugged in (contracts are hypotheses okR / okX)"],
+                       "runs with cache / dominance (C09 / C10)", "the closed theorem reads relaxed compilations through the must-resolution of the exact-best-path tie (as C01)"],
     level_text="For the data-level transition system of the parallel solver (fringe, incumbent, and the nodes held by workers together with the stale incumbent each worker read and what its compilations answered; any number of workers; every interleaving of the critical sections and lock-free compilations) the coverage invariant is proved to be preserved by every step of every worker in every order under exactly the diagram contracts, and to imply that the incumbent is the optimum once nothing is open or held. The executable model of the parallel solver, which has the same sections, is validated against the real solver trace by trace under the controlled scheduler (thread counts 1..4, random and PCT schedules, cache accesses as scheduling points), and phi compares every final value with the exact optimum.",
-    level_note="Second stage (C03b, ParSys.lean + 2000 lines of proofs): the same results are theorems about the CONCRETE model - the shared record ParCrit with the ParSolver.lean functions themselves (popLoop, take, readLb, updateBest, enqueue, notifyFinished, abortSearch, complete) and one local state per worker, 15 step constructors composed as parallel.rs composes its sections, both fringes, cutoffs and worker panics included: the invariant SysInv (coverage; per worker: the stale incumbent it read is below the current one and its compilations meet the contracts for the incumbent it read; upper_bounds[i] is the bound of the node worker i holds; ongoing = number of holders) holds initially (with or without a primal) and along every run of every interleaving (sys_inv); when get_workload answers Complete the incumbent is the optimum with a feasible solution, none iff infeasible (sys_complete_optimal, sys_complete_value); what maximize() returns once all workers are done (sys_final); no infinite run at all, wait steps included, when cut-sets make progress (sys_terminates, sys_no_infinite_run: lexicographic measure on per-depth counts of open nodes). First stage: abstract data-level system; proved without cache and dominance; the link trace validator -> step relation is by construction of the definitions, not a checked refinement; synchronisation (no deadlock) is C04. Atomicity of the critical sections is assumed (mutex semantics).",
+    level_note="Closed theorem (parallel_solver_correct, C03c): for every well-formed model (same bundle as C01: Potential, RubOk, MergeOk, AttMerge, bounded costs, NvBound, widths >= 1) and every number of threads U >= 1, from the initial state every run of the concrete parallel system in which the compilations are THE DIAGRAM MODEL'S answers (EmptyCache, no dominance; cutoffs may strike any compilation) - every interleaving - satisfies the invariants, terminates (no infinite run), never takes a panic step, is never stuck while a worker is still there (no deadlock, no lost wake-up), and when get_workload answers Complete the incumbent is the optimum with a genuinely feasible stored solution and completion = (true, some opt), (true, none) iff the problem is infeasible; after a cutoff best_lb <= opt <= best_ub and not exact; parallel_solver_total: uninterrupted runs exist and every one of them ends with all workers gone and the optimum; parallel_solver_primal: from a feasible primal, max(v, opt). The per-worker side conditions (stale incumbent in range, node in hand reached exactly, ...) are an invariant PCInv; the contracts are derived from C06 - C08 for the stale incumbent each worker read. Non-vacuity: two threads on the Trap model, evaluated by the kernel through a deterministic scheduler (a state where one thread has published incumbent 4 while the other is about to compile with the stale incumbent 1). U >= 1 is necessary: with nb_threads = 0, which custom() / with_nb_threads() accept, maximize() reports (is_exact = true, no value) for any problem (Trap2.zero_threads) - outside the property's quantifier (>= 1), recorded as an observation. Second stage (C03b, ParSys.lean + 2000 lines of proofs): the same results are theorems about the CONCRETE model - the shared record ParCrit with the ParSolver.lean functions themselves (popLoop, take, readLb, updateBest, enqueue, notifyFinished, abortSearch, complete) and one local state per worker, 15 step constructors composed as parallel.rs composes its sections, both fringes, cutoffs and worker panics included: the invariant SysInv (coverage; per worker: the stale incumbent it read is below the current one and its compilations meet the contracts for the incumbent it read; upper_bounds[i] is the bound of the node worker i holds; ongoing = number of holders) holds initially (with or without a primal) and along every run of every interleaving (sys_inv); when get_workload answers Complete the incumbent is the optimum with a feasible solution, none iff infeasible (sys_complete_optimal, sys_complete_value); what maximize() returns once all workers are done (sys_final); no infinite run at all, wait steps included, when cut-sets make progress (sys_terminates, sys_no_infinite_run: lexicographic measure on per-depth counts of open nodes). First stage: abstract data-level system; proved without cache and dominance; the link trace validator -> step relation is by construction of the definitions, not a checked refinement; synchronisation (no deadlock) is C04. Atomicity of the critical sections is assumed (mutex semantics).",
     engines=[PAR_ENGINES[0], PAR_ENGINES[3]], trusted_base=PAR_TB,
     assumptions=["diagram contracts (C06-C08)", "atomic critical sections"],
     rule=PAR_RULE, trivial_tags=PAR_TRIVIAL,
